@@ -192,6 +192,14 @@ class Sched:
             self.tl.dml = None
             try:
                 op.result = op.fn()
+                # an operation armed at (or beyond) its number of calls: the injected one runs right after it (sequential baseline)
+                for k in sorted(op.arm):
+                    if k >= len(op.calls) and k not in op.injected and k not in op.skipped_intxn:
+                        inj = op.arm[k]
+                        op.injected.append(k)
+                        self.trace.append(f"{op.name}@end inject {inj.name}={inj.label}")
+                        self.run_op(inj)
+                        self.trace.append(f"{inj.name} end {inj.error or 'ok'}")
             except sqlite3.OperationalError as e:   # lock timeout: the injection point was not a free window
                 op.error = "blocked:" + str(e)[:60]
                 self.blocked = True
@@ -305,15 +313,23 @@ def _make_task():
     from stabilize.tasks.result import TaskResult
 
     class LedgerTask(Task):
-        """Scripted task: records its execution outside the engine; outcome scripted by context['_script'] (default success)."""
+        """Scripted task: records its execution outside the engine; outcome scripted by context['_script']:
+        S success (default) | T terminal | F failed-continue | U suspend on the first execution | J:<ref>:<n> jump to <ref> the first n times."""
 
         def execute(self, stage):  # noqa: ANN001
             LEDGER.append((stage.ref_id, "t"))
+            n = sum(1 for x in LEDGER if x[0] == stage.ref_id)
             oc = stage.context.get("_script", "S")
             if oc == "T":
                 return TaskResult.terminal("scripted terminal")
             if oc == "F":
                 return TaskResult.failed_continue("scripted failure")
+            if oc == "U" and n == 1:
+                return TaskResult.suspend()
+            if oc.startswith("J:"):         # J:<target ref>:<how many times>
+                _, target, times = oc.split(":")
+                if n <= int(times):
+                    return TaskResult.jump_to(target)
             return TaskResult.success(outputs={f"o_{stage.ref_id}": 1})
 
     return LedgerTask()
@@ -703,4 +719,5 @@ def fresh_env(workdir: Path, name: str = "mb") -> Env:
         q = Path(str(p) + suf)
         if q.exists():
             q.unlink()
+    LEDGER.clear()
     return Env(p).open(create=True)
